@@ -264,7 +264,14 @@ func (c *seqChecker) compareState(w *World, now int64, argv []string) *Violation
 		mdb := c.m.dbs[db]
 		nowT := time.Unix(0, now)
 		live := 0
-		for k, o := range dump {
+		// (sorted: which of several differences is reported must not depend on map order)
+		names := make([]string, 0, len(dump))
+		for k := range dump {
+			names = append(names, k)
+		}
+		sort.Strings(names)
+		for _, k := range names {
+			o := dump[k]
 			if !o.ExpiresAt.After(nowT) {
 				// deadline reached (a deadline equal to "now" takes effect before
 				// the next command, which runs at least 1 microsecond later)
@@ -376,7 +383,8 @@ func diffObj(mo *mObj, o *redisemu.SimObj) string {
 		if len(mo.H) != len(o.Hash) {
 			return fmt.Sprintf("hash has %d fields, expected %d", len(o.Hash), len(mo.H))
 		}
-		for f, v := range mo.H {
+		for _, f := range sortedKeys(mo.H) {
+			v := mo.H[f]
 			ov, ok := o.Hash[f]
 			if !ok {
 				return fmt.Sprintf("hash lacks field %q", f)
@@ -395,7 +403,7 @@ func diffObj(mo *mObj, o *redisemu.SimObj) string {
 		if len(mo.Z) != len(o.Set) {
 			return fmt.Sprintf("set has %d members %q, expected %d %q", len(o.Set), sortedKeys(o.Set), len(mo.Z), sortedKeys(mo.Z))
 		}
-		for x := range mo.Z {
+		for _, x := range sortedKeys(mo.Z) {
 			if _, ok := o.Set[x]; !ok {
 				return fmt.Sprintf("set lacks member %q", x)
 			}
